@@ -58,10 +58,11 @@ def short(v, n=300):
 
 
 # ======================================================================================================================= R5
-def _getbins_facts(S0, right, vector, lo=0, hi=10, b0=None, bn=None, check=True, increasing=True, mixed=False):
+def _getbins_facts(S0, right, vector, lo=0, hi=10, b0=None, bn=None, check=True, increasing=True, mixed=False, interior=None):
     E = S0.E
     truths = [(E("right"), right), (E("check_bounds"), check)]
     f = Facts(truths=truths)
+    f.interior = interior        # what np.digitize returns for a value strictly inside the edges (1 .. number of edges - 1)
     for text, x in (("mx", hi), ("mn", lo), ("bins.size", 5 if vector else 1), ("len(bins)", 5 if vector else 1), ("bins.ndim", 1),
                     ("bins[1:]", 6 if increasing else 5), ("bins[:-1]", 5)):
         f.num_set(E(text), x)
@@ -140,7 +141,9 @@ def r5_binify_guards(ctx):
         tab = {}
         for pl, b0 in (("below", 1), ("on", 0), ("above", -1)):          # mn = 0 relative to the first edge b0
             for ph, bn in (("below", 11), ("on", 10), ("above", 9)):      # mx = 10 relative to the last edge bn
-                tab[(pl, ph)] = truth(verdict, _getbins_facts(S0, right, True, b0=b0, bn=bn))
+                # a verdict that asks np.digitize itself where mn and mx fall must come out the same whichever interior bin it names
+                vs = {truth(verdict, _getbins_facts(S0, right, True, b0=b0, bn=bn, interior=k_)) for k_ in (1, 2, 3, 4)}
+                tab[(pl, ph)] = vs.pop() if len(vs) == 1 else None
         if any(v is None for v in tab.values()):
             interior = [x for _, a_, x in apps(verdict, "idx") if same(a_[0], S0.E("bins")) and const_of(a_[1]) is not None and const_of(a_[1]) not in (0, -1)]
             if interior:
@@ -570,6 +573,23 @@ def r6_tolerance_strictness(ctx):
     else:
         _findap_numpy(ctx, vec[0], fu, pl, consts, table, lf)
     for q, fn, S, pq, loops, S0 in variants:
+        # length 1 (named in the property's quantifier): the only sample is the first sample and is selected
+        f1 = Facts()
+        for text in (f"{pq[0]}.size", f"len({pq[0]})"):
+            f1.num_set(S0.E(text), 1)
+        inl = {k: v for k, v in table.items() if k != "findap"}
+        inl["locate.find_unique"] = lf
+        S1 = XSem(ctx, fn, facts=f1, consts=consts, inline=inl)
+        r1 = S1.returns()
+        v1 = r1[0][0] if len(r1) == 1 and not r1[0][2] else None
+        if isinstance(v1, tuple) and len(v1) == 1:
+            v1 = v1[0]
+        t1 = truth(v1, None) if v1 is not None and not isinstance(v1, tuple) else None
+        what = f"findap ({'loop' if loops else 'numpy'} variant): a one-sample signal returns its only sample selected"
+        if t1 is None:
+            ctx.error(what, fn, [short(r[0], 120) for r in r1])
+        else:
+            ctx.check(t1, what, r1[0][1], None if t1 else short(r1[0][0]))
         if loops:
             arr = None
             for rv, _, g in S.returns():
@@ -607,7 +627,7 @@ def _masks(S, v, depth=3):
         return v
 
 
-def _retained_mask(S, allu, U):
+def _retained_mask(S, allu, U, strict=True):
     """the mask findap builds over the retained samples: dict(mask, cells, ini, ini_t, inner, last, YU) - `inner` the store into [1:-1], `last` the
     end-point store, YU the array the end-point test indexes; or a text saying which part is missing ('scatter: ...' for the expansion)"""
     rv = S.ret()
@@ -624,6 +644,8 @@ def _retained_mask(S, allu, U):
         ini0 = S.init(arr)
         blank = const_of(ini0) == 0 or (U is not None and ini0 is not None and not isinstance(ini0, tuple) and same(_masks(S, ini0), U))
         ok = scattered and blank and not cells[0][4]["guard"] and U is not None and same(_masks(S, cells[0][1]), U)
+        if not strict:
+            ok = scattered          # the twin evaluation (conversions visible): what is scattered where was checked on the plain one
         if not ok:
             return f"scatter: expansion to full size: {[(short(c[1], 80), short(c[2], 80)) for c in cells]}"
         mask = sym_of(cells[0][2])
@@ -638,15 +660,19 @@ def _retained_mask(S, allu, U):
     text = f"mask stores {[(short(c[1], 60), short(c[2], 160)) for c in cells]} init {short(ini)}"
     if not (ini_t is not None and len(cells) == len(inner) + len(last) and len(inner) == 1 and len(last) == 1 and not inner[0][4]["guard"]):
         return text
-    YU = None
-    ne = app(last[0][2], "cmp:NotEq")
-    if ne is not None:
-        x1, x2 = app(ne[1][0], "idx"), app(ne[1][1], "idx")
+    YU = ends = None
+    # the end-point test compares the last two entries of some array: that array is the sequence of retained samples the mask belongs to
+    for nm, a_, _ in apps(last[0][2], "cmp:NotEq") + apps(last[0][2], "cmp:Eq"):
+        if len(a_) != 2 or any(isinstance(k, str) for k in a_):
+            continue
+        x1, x2 = app(a_[0], "idx"), app(a_[1], "idx")
         if x1 is not None and x2 is not None and same(x1[1][0], x2[1][0]) and {const_of(x1[1][1]), const_of(x2[1][1])} == {-1, -2}:
-            YU = x1[1][0]
+            if YU is not None and not same(YU, x1[1][0]):
+                return text
+            YU, ends = x1[1][0], (a_[0], a_[1])
     if YU is None:
         return text
-    return dict(mask=mask, cells=cells, ini=ini, ini_t=ini_t, inner=inner[0], last=last[0], YU=YU, YUr=_masks(S, YU), text=text)
+    return dict(ends=ends, mask=mask, cells=cells, ini=ini, ini_t=ini_t, inner=inner[0], last=last[0], YU=YU, YUr=_masks(S, YU), text=text)
 
 
 _EXACT_VALUES = (-50, -1, 0, 1, 70)
@@ -691,17 +717,29 @@ def _findap_numpy(ctx, variant, fu, pl, consts, table, lf):
     inl["locate.find_unique"] = lf
     U = fu.subs({pl[0]: y, pl[1]: S0.E(pq[1])}) if fu is not None and not is_unknown(fu) and not isinstance(fu, tuple) else None
     res, twin = {}, {}
+    sizes = [S0.E(f"{pq[0]}.size"), S0.E(f"len({pq[0]})")]
+    yf = F.fn("asfloat", y)          # the signal converted to float on entry (visible in the twin evaluation only) has as many samples
+    sizes += [S0.E("V.size", V=yf), S0.E("len(V)", V=yf)]
+
+    def several(v):
+        """a test on the number of samples that comes out the same for every signal of two or more samples (`y.size == 1`, `len(y) < 2`, ...)"""
+        if not any(same(x, s) for x in walk(v) for s in sizes):
+            return None
+        rs = set()
+        for n_ in (2, 3, 4, 1000):
+            fx = Facts()
+            for s in sizes:
+                fx.num_set(s, n_)
+            rs.add(truth(v, fx))
+        return rs.pop() if len(rs) == 1 else None
+
     for allu in (True, False):
-        f = Facts(preds=[lambda v, allu=allu: (allu if head(v) == "call:np.all" else None)],
-                  truths=[(S0.E(f"{pq[0]}.size == 1"), False), (S0.E(f"len({pq[0]}) == 1"), False)])
+        f = Facts(preds=[lambda v, allu=allu: (allu if head(v) == "call:np.all" else None), several])
         res[allu] = XSem(ctx, fn, facts=f, consts=consts, inline=inl)
         # the same evaluation with conversions to float left visible in the values (they are the identity everywhere else)
         twin[allu] = XSem(ctx, fn, facts=f, consts=consts, inline=inl, dtypes=True)
-    Sfut = XSem(ctx, lf, consts=module_consts(ctx, LOC), inline={k: v for k, v in module_funcs(ctx, LOC).items() if k != "find_unique"}, dtypes=True)
-    fut = _masks(Sfut, Sfut.ret())
-    Ut = fut.subs({pl[0]: y, pl[1]: S0.E(pq[1])}) if fut is not None and not is_unknown(fut) and not isinstance(fut, tuple) else None
     probs = []
-    shape_ok, slope_ok, ret_ok, scatter_ok = True, True, True, True
+    shape_ok, slope_ok, ret_ok, scatter_ok, end_ok = True, True, True, True, True
     stencils = []
     for allu, S in res.items():
         m = _retained_mask(S, allu, U)
@@ -716,7 +754,7 @@ def _findap_numpy(ctx, variant, fu, pl, consts, table, lf):
         YU, inner, last, ini_t = m["YU"], m["inner"], m["last"], m["ini_t"]
         # the interior test as a function of the window (k-1, k, k+1) of the retained samples, whatever it is written with
         st = why = None
-        mt = _retained_mask(twin[allu], allu, Ut) if Ut is not None else "find_unique"
+        mt = _retained_mask(twin[allu], allu, None, strict=False)
         if isinstance(mt, dict):
             try:
                 st = Stencil(mt["inner"][2], mt["YU"])
@@ -739,15 +777,21 @@ def _findap_numpy(ctx, variant, fu, pl, consts, table, lf):
                             Sg = aa[0]
         ok = st is not None or Sg is not None
         if ok:
-            # the end-point store is guarded by "more than two retained samples"
-            g = conj(list(last[4]["guard"]))
+            # the last retained sample always differs from its predecessor (that is what retained means) and ends the signal: whatever the
+            # end-point store and its guard look like, the entry must come out True - with two retained samples (nothing between them) and with more
+            a_, b_ = m["ends"]
             tt = []
             for nn in (2, 3):
-                f = Facts()
+                f = Facts(truths=[(F.fn("cmp:NotEq", a_, b_), True), (F.fn("cmp:NotEq", b_, a_), True), (F.fn("cmp:Eq", a_, b_), False), (F.fn("cmp:Eq", b_, a_), False)])
                 for v in (S.E("V.size", V=YU), S.E("len(V)", V=YU)):
                     f.num_set(v, nn)
-                tt.append(truth(g, f))
-            ok = tt == [False, True]
+                tg = truth(conj(list(last[4]["guard"])), f)
+                tt.append(None if tg is None else (truth(last[2], f) if tg else ini_t))
+            ok = None not in tt
+            if ok and tt != [True, True]:
+                end_ok = False
+                probs.append({"all-unique": allu, "end-point store": short(last[2], 160), "under": short(conj(list(last[4]["guard"])), 120),
+                              "last entry with 2 / 3 retained samples": tt})
         if not ok:
             shape_ok = False
             probs.append(f"all-unique={allu}: {m['text']}" + (f" [interior test not evaluated element by element: {why}]" if why else ""))
@@ -775,6 +819,8 @@ def _findap_numpy(ctx, variant, fu, pl, consts, table, lf):
                         "the same sequence the mask and the end-point test index (a slope taken against a dropped sample loses the true turning point)", fn,
               None if slope_ok else probs)
     ctx.check(scatter_ok, "findap (numpy variant): removed repeats are never peaks", fn, None if scatter_ok else probs)
+    ctx.check(end_ok, "findap (numpy variant): the last retained sample stays marked (it differs from its predecessor by construction and ends the signal, so it is a reversal "
+                      "- the only sample that reaches the extreme of a signal ending on a monotone stretch)", fn, None if end_ok else probs)
     if not stencils:
         return
     bad_exact, bad_narrow, hidden, node = [], [], [], fn
@@ -1021,10 +1067,14 @@ def _columns(v, cols):
     if not v.d.is_const():
         return None
     out = None
+    later = []
     for mono, coef in v.n.t.items():
         if len(mono) != 1 or mono[0][1] != 1:
             return None
         av = F.Rat(F.Poly.atom(mono[0][0]))
+        if sym_of(av) is not None or app(av, "hcat") is not None:
+            later.append((av, coef / v.d.const_value()))          # the whole array / a concatenation of column blocks: below
+            continue
         b, ix = peel(av)
         two = len(ix) == 2
         if len(ix) == 2:
@@ -1065,7 +1115,43 @@ def _columns(v, cols):
             if len(out[0]) != len(vec):
                 raise _Mismatch(f"pieces of different length are combined: {short(v)}")
             out = ([p + q for p, q in zip(out[0], vec)], b)
+    for av, coef in sorted(later, key=lambda z: app(z[0], "hcat") is not None):
+        if sym_of(av) is not None:
+            vec, b = [coef * c for c in cols], av                 # every column of the array itself
+        else:
+            vec, b, fill = [], None, None
+            for part in app(av, "hcat")[1]:
+                if isinstance(part, str):
+                    return None
+                if const_of(part) is not None:
+                    if fill is not None:
+                        return None
+                    fill = (len(vec), const_of(part))                # a constant block (np.zeros((n, k))): as wide as numpy's shape check demands
+                    continue
+                r = _columns(part, cols)
+                if r is None or (b is not None and not same(b, r[1])):
+                    return None
+                b = r[1]
+                vec += [coef * x for x in r[0]]
+            if fill is not None:
+                if out is None or len(out[0]) < len(vec):
+                    return None if out is None else _raise(_Mismatch(f"pieces of different length are combined: {short(v)}"))
+                vec[fill[0]:fill[0]] = [F.const(fill[1]) * coef] * (len(out[0]) - len(vec))
+            if b is None:
+                return None
+        if out is None:
+            out = (vec, b)
+        else:
+            if not same(out[1], b):
+                return None
+            if len(out[0]) != len(vec):
+                raise _Mismatch(f"pieces of different length are combined: {short(v)}")
+            out = ([p + q for p, q in zip(out[0], vec)], b)
     return out
+
+
+def _raise(e):
+    raise e
 
 
 def r3_telescoping(ctx):
@@ -1099,6 +1185,14 @@ def r3_telescoping(ctx):
                 slots[int(const_of(t_))] = v_
         if ok and not mism:
             vec = [x for x in slots if x is not None]
+    elif hc is None and CT is not None:
+        # one expression over the array of cumulative counts (Count minus Count shifted by one column, ...)
+        try:
+            r = _columns(Z, C)
+            ok = r is not None and sym_of(r[1]) == CT
+            vec = list(r[0]) if ok else []
+        except _Mismatch as e:
+            mism = str(e)
     elif ok:
         for part in hc[1]:
             try:
@@ -1410,25 +1504,30 @@ RULES = [
     ("C10-R1", r1_exponents, 27),
     ("C10-R3", r3_telescoping, 9),
     ("C10-R5", r5_binify_guards, 28),
-    ("C10-R6", r6_tolerance_strictness, 15),
+    ("C10-R6", r6_tolerance_strictness, 20),
     ("C10-R7", r7_amplitude_scaling, 14),
 ]
 LEVEL = "other"
 EXPLANATION = ("Static, decided on values (functions evaluated on symbols, helpers followed, every branch visited with its guard): binify's dropped index guard is "
                "sound only if getbins' out-of-bounds verdict is the exact complement of numpy.digitize's half-open intervals - the verdict's truth table is "
-               "evaluated for both `right` settings; all peak-picking tolerance comparisons are strict and share one tolerance formula; the vectorised findap "
-               "takes its slope signs from consecutive retained samples; fdepsd's exponent/label agreement, (Df/Dt)^(2/b), Miles consistency of "
+               "evaluated for both `right` settings; all peak-picking tolerance comparisons are strict and share one tolerance formula; the vectorised findap's "
+               "interior reversal test is compiled to a function of the window (k-1, k, k+1) of retained samples and evaluated on every 3-sample signal over five values "
+               "(exact arithmetic: marked iff strict local extreme) and on every int8 signal [0, d0, d0+d1] with numpy's wrap-around arithmetic (sign-exact in the "
+               "signal's own dtype: no product of slopes unless converted to float); the last retained sample stays marked; fdepsd's exponent/label agreement, (Df/Dt)^(2/b), Miles consistency of "
                "G1/G2/Gb/peak amplitudes in both response arms (symbolic), telescoping of BinCount on a generic count vector; dimensional homogeneity: every "
                "comparison in fdepsd/_dofde compares quantities of the same degree in the signal amplitude and the PSD columns have degree 2.")
 MANIFEST = {
     "text": "Thin partial claim decided statically: (R5) getbins/_binify/binify guard flow and half-open interval agreement with numpy.digitize; (R6) strict tolerance "
-            "comparisons and one tolerance formula shared by locate.find_unique and both findap variants, slope signs of the vectorised findap taken between "
-            "consecutive retained samples; (R1) fdepsd exponent/label agreement and Miles consistency per response arm; (R3) BinCount telescopes to the total "
+            "comparisons and one tolerance formula shared by locate.find_unique and both findap variants, the vectorised findap's reversal test decided element by element on retained samples "
+            "(truth table over 3-sample signals in exact arithmetic and exhaustively in int8 wrap-around arithmetic: a product of two slopes in the signal's own "
+            "dtype is not sign-safe), last retained sample always marked; (R1) fdepsd exponent/label agreement and Miles consistency per response arm; (R3) BinCount telescopes to the total "
             "cycle count, cumulative counts are counts of amplitude >= level; (R7) amplitude-square scaling as dimensional homogeneity (scale-invariant "
             "comparisons, PSD columns of degree 2). The serial==parallel clause is decided under C09. Not decided: findap's alternation / extreme capture on "
             "data (the plateau-drift counter-example of the property is value-level; the two findap variants are different algorithms and provably disagree "
-            "on it, so no cross-variant agreement rule exists), G2 >= G1, amplitude <= SRS peak, scale-invariance of findap/rainflow themselves.",
-    "note": "Trusted: CPython ast; numpy.digitize's documented interval semantics (embedded as a two-row table); linearity of scipy.signal.lfilter / detrend / "
+            "on it, so no cross-variant agreement rule exists), G2 >= G1, amplitude <= SRS peak, scale-invariance of findap/rainflow themselves, dtype safety of the loop (numba) variant "
+            "of findap, underflow of slope products on float signals (|slope| < 1e-162).",
+    "note": "Trusted: CPython ast; numpy.digitize's documented interval semantics (embedded as a two-row table); numpy's fixed-width integer arithmetic (sums, differences, products and "
+            "abs of same-dtype integers wrap around; comparisons, sign and conversions to float are exact; Python integers adopt the array's dtype); linearity of scipy.signal.lfilter / detrend / "
             "dsp.windowends / the resampling functions in the signal; verifier/e2_formula.py, verifier/e2_eval.py, verifier/c10_sem.py.",
     "technique": "symbolic evaluation of the anchored functions (guards as truth tables on small numeric models, values as rational normal forms) + "
                  "dimensional (degree-of-homogeneity) analysis + small-vector telescoping check",
